@@ -52,7 +52,9 @@ def main() -> int:
     proof_broken = list(aud["bad"])
     checker_note = ""
     if args.tier == "thorough" and not proof_broken and not args.no_lean:
-        mods = [str(p.relative_to(common.LEAN_DIR))[:-5].replace("/", ".") for p in common.lean_sources_of(reg["module"])]
+        mlist = [reg["module"]] if isinstance(reg["module"], str) else list(reg["module"])
+        srcs = {p for m in mlist for p in common.lean_sources_of(m)}
+        mods = sorted(str(p.relative_to(common.LEAN_DIR))[:-5].replace("/", ".") for p in srcs)
         ok, log = common.leanchecker(mods)
         checker_note = "leanchecker over %d modules: %s" % (len(mods), "ok" if ok else "FAILED")
         if not ok:
@@ -146,7 +148,7 @@ def main() -> int:
     coverage = {
         "obligations": obligations,
         "discharged": discharged,
-        "checker_cmd": "cd lean && lake build %s && lake env lean <generated #print axioms file>%s" % (reg["module"], "; lake env leanchecker <modules>" if args.tier == "thorough" else ""),
+        "checker_cmd": "cd lean && lake build %s && lake env lean <generated #print axioms file>%s" % (reg["module"] if isinstance(reg["module"], str) else " ".join(reg["module"]), "; lake env leanchecker <modules>" if args.tier == "thorough" else ""),
         "trusted_base": common.TRUSTED_BASE + reg.get("trusted", []),
         "theorems": aud["theorems"],
         "nonvacuity_examples": aud["examples"],
